@@ -1,5 +1,6 @@
 """C09 — t-test equals the Welch statistic whatever the batching and thread timing."""
 import math
+from fractions import Fraction
 import threading
 import time
 
@@ -237,7 +238,17 @@ def _compare(ctx, case, analysis, results, eps, prefix):
         if a.processed_traces != len(x):
             raise Violation(prefix + 'accumulator of %s has processed_traces=%s, expected %d' % (name, a.processed_traces, len(x)), case)
         xf = x.astype('float64')
-        m, v = xf.mean(0), xf.var(0)
+        if stats.is_integral(x):
+            # exact integer arithmetic (numpy's strided axis-0 reductions are naive sums: their error grows with the number of traces)
+            xo = stats._obj(x)
+            n_ = len(xo)
+            S_, Q_ = xo.sum(0), (xo * xo).sum(0)
+            m = np.array([float(Fraction(int(a_), n_)) for a_ in S_])
+            v = np.array([float(Fraction(n_ * int(q_) - int(a_) ** 2, n_ * n_)) for a_, q_ in zip(S_, Q_)])
+        else:
+            xt = np.ascontiguousarray(xf.T).astype(np.longdouble)
+            m = np.asarray(xt.mean(1), dtype='float64')
+            v = np.asarray(((xt - xt.mean(1, keepdims=True)) ** 2).mean(1), dtype='float64')
         scale = (xf ** 2).mean(0) + 1e-300
         factor = 1.0 if case['regime'] == 'exact' else float(len(x))
         if not np.all(np.abs(np.asarray(a.mean, dtype='float64') - m) <= 64 * eps * factor * (np.abs(xf).mean(0) + 1e-300)):
@@ -250,16 +261,25 @@ def replay(ctx, case):
     check_ttest(ctx, case)
 
 
+BIG_SIZES = [4097, 8193, 16385, 16400, 20000, 32769, 40000, 65537]
+
+
 @st.composite
-def ttest_cases(draw):
+def ttest_cases(draw, large=False):
     precision = draw(st.sampled_from(['float32', 'float64']))
     regime = draw(st.sampled_from(['exact', 'exact', 'rounded']))
-    nruns = draw(st.sampled_from([1, 1, 2, 3]))
-    L = draw(st.integers(1, 6))
-    pre = draw(st.sampled_from([None, None, 'square', 'topower3']))
+    nruns = draw(st.sampled_from([1, 1, 2, 3])) if not large else 1
+    L = draw(st.integers(1, 6)) if not large else draw(st.integers(1, 2))
+    pre = draw(st.sampled_from([None, None, 'square', 'topower3'])) if not large else None
     bs = draw(st.integers(1, 25))
     sizes = [(draw(st.one_of(st.integers(1, 12), st.integers(1, 80))), draw(st.one_of(st.integers(1, 12), st.integers(1, 80)))) for _ in range(nruns)]
-    if draw(st.booleans()):
+    if large:
+        # trace sets of tens of thousands of traces processed in very large batches (sizes around powers of two and off them)
+        a_ = draw(st.sampled_from(BIG_SIZES)) + draw(st.integers(-2, 2))
+        b_ = draw(st.sampled_from(BIG_SIZES + [100, 5000])) + draw(st.integers(0, 3))
+        sizes = [(a_, b_) if draw(st.booleans()) else (b_, a_)]
+        bs = draw(st.sampled_from([max(a_, b_) + 7, 16384, 25000, 30000, 3000]))
+    elif draw(st.booleans()):
         # make tail batches of exactly one trace likely
         sizes[0] = (bs * draw(st.integers(1, 3)) + 1, sizes[0][1])
     ntot = sum(a + b for a, b in sizes)
@@ -288,25 +308,27 @@ def ttest_cases(draw):
         frame = slice(a, draw(st.integers(a + 1, L)), draw(st.sampled_from([1, 2])))
     elif frame == 'list':
         frame = draw(st.lists(st.integers(0, L - 1), min_size=1, max_size=4))
-    mode = draw(st.sampled_from(['tokens', 'tokens', 'tokens', 'sleeps', 'free']))
+    mode = draw(st.sampled_from(['tokens', 'tokens', 'tokens', 'sleeps', 'free'])) if not large else 'free'
     nb = sum(math.ceil(a / bs) + math.ceil(b / bs) for a, b in sizes[:1])
     schedule = draw(st.lists(st.integers(0, 1), min_size=0, max_size=min(nb, 24))) if mode == 'tokens' else []
     alt = draw(st.lists(st.integers(0, 1), min_size=0, max_size=min(nb, 24))) if mode == 'tokens' and draw(st.booleans()) else None
     sleeps = draw(st.lists(st.integers(0, 3), min_size=1, max_size=6)) if mode == 'sleeps' else []
     fault = None
-    if draw(st.integers(0, 4)) == 0:
+    if not large and draw(st.integers(0, 4)) == 0:
         fault = (draw(st.integers(0, 1)), draw(st.integers(0, 4)))
     return {'kind': 'ttest', 'precision': precision, 'regime': regime, 'runs': runs, 'batch_size': bs, 'frame': frame, 'preprocess': pre,
             'nthreads': draw(st.sampled_from([1, 2, 5, 16])), 'sched_mode': mode, 'schedule': schedule, 'alt_schedule': alt, 'sleeps': sleeps, 'fault': fault}
 
 
-def unit_generated(ctx, n):
-    hyp.run(ctx, ttest_cases(), check_ttest, n, shrink_budget=150 if ctx.tier == 'quick' else 1500)
+def unit_generated(ctx, n, large=False):
+    hyp.run(ctx, ttest_cases(large), check_ttest, n, shrink_budget=(150 if not large else 8) if ctx.tier == 'quick' else (1500 if not large else 40))
 
 
 def units(tier):
     q = tier == 'quick'
-    return [{'name': 'gen-%d' % i, 'fn': 'unit_generated', 'kwargs': {'n': 120 if q else 5000}, 'threads': 16} for i in range(12)]
+    us = [{'name': 'gen-%d' % i, 'fn': 'unit_generated', 'kwargs': {'n': 120 if q else 5000}, 'threads': 16} for i in range(12)]
+    us += [{'name': 'large-sets-%d' % i, 'fn': 'unit_generated', 'kwargs': {'n': 8 if q else 120, 'large': True}, 'threads': 16} for i in range(4)]
+    return us
 
 
 def selftest():
